@@ -35,7 +35,9 @@ RULE = ("a case = an epoch, 1-4 names, an optional initial address-mappings/all 
 ASSUMPTIONS = [
     "process TZ is UTC; Tor's local-time Expiry equals the EXPIRES= UTC time except in histories where Tor is "
     "modelled in another zone, which use only the forms carrying EXPIRES=",
-    "ADDRMAP lines are well-formed per control-spec 4.1.7 (error lines carry error=yes and EXPIRES=)",
+    "ADDRMAP lines are well-formed per control-spec 4.1.7; failed lookups (<error>) come in every shape Tor has used: "
+    "with and without the error=yes keyword, with bare local time, EXPIRES=, CACHED=, positional utc, NEVER - the "
+    "<error> address alone means the name is dropped",
     "names are host names; addresses are IPv4 literals, bracketed IPv6 literals or host names",
     "the exact instant of an expiry is never probed (boundary cases are counted, not judged)",
     "lookup by address while the mapping is live is not demanded by the statement and not judged",
@@ -69,6 +71,8 @@ FLOORS = {
               "expiries_in_model": 3000, "state_route_events": 300, "bootstrap_mappings": 100,
               "in_callback_probes": 15000, "reresolves_in_callback": 600, "listener_raises": 300,
               "bursts_fed": 1200, "events_in_bursts": 3500, "positional_form_lines": 1500,
+              "error_lines_fed": 500, "error_lines_without_keyword_on_held_name": 80,
+              "error_lines_without_keyword_on_unknown_name": 120,
               "positional_form_lines_tor_in_other_zone": 300,
               "reach:txtorcon.addrmap:Addr.update": 5000, "reach:txtorcon.addrmap:Addr._expire": 1500,
               "reach:txtorcon.torstate:TorState._addr_map": 300},
@@ -76,6 +80,8 @@ FLOORS = {
                  "expiries_in_model": 100000, "state_route_events": 15000, "bootstrap_mappings": 4000,
                  "in_callback_probes": 500000, "reresolves_in_callback": 20000, "listener_raises": 10000,
                  "bursts_fed": 45000, "events_in_bursts": 120000, "positional_form_lines": 50000,
+                 "error_lines_fed": 20000, "error_lines_without_keyword_on_held_name": 3000,
+                 "error_lines_without_keyword_on_unknown_name": 5000,
                  "positional_form_lines_tor_in_other_zone": 10000,
                  "reach:txtorcon.addrmap:Addr.update": 250000, "reach:txtorcon.addrmap:Addr._expire": 100000,
                  "reach:txtorcon.torstate:TorState._addr_map": 15000},
@@ -122,10 +128,18 @@ def gen_event(rnd, model, names, addrs, theme, boot=False, force_name=None):
         if not boot and theme["error"] and r < 0.2:
             ev["addr"] = M.ERROR
             ev["exp"] = int(model.now) + rnd.randint(30, 3600) if rnd.random() < 0.85 else None
-            ev["form"] = "cached" if ev["exp"] is not None else rnd.choice(["never", "never-cached"])
-            ev["cached"] = "NO"
-            if theme["tzoff"]:
+            # every shape Tor has used for a failed lookup: with / without error=yes, bare local time,
+            # EXPIRES=, CACHED=, positional utc; with a local-time-only form Tor is in our zone
+            if ev["exp"] is None:
+                ev["form"] = rnd.choice(["never", "never-cached"])
+            elif theme["tzoff"]:
+                ev["form"] = rnd.choice(["expires", "cached", "positional"])
                 ev["tzoff"] = theme["tzoff"]
+            else:
+                ev["form"] = rnd.choice(["local", "expires", "cached", "cached", "positional"])
+            ev["cached"] = "NO"
+            if rnd.random() < 0.45:
+                ev["errkw"] = False
         elif r < 0.35:
             if live_finite and not theme["never_after_finite"]:
                 continue
@@ -507,6 +521,8 @@ def run_case(case, rec):
         return "general"
 
     def note_form(ev):
+        if ev["addr"] == M.ERROR and not ev.get("errkw", True):
+            lst.tags.setdefault(ev["name"], set()).add("error-line-without-keyword")
         if ev.get("form") == "positional" and ev["addr"] != M.ERROR and ev["exp"] is not None:
             lst.tags.setdefault(ev["name"], set()).add("positional-utc-form")
             rec.count("positional_form_lines")
@@ -571,7 +587,13 @@ def run_case(case, rec):
                 trans = model.event(arg)
                 note_form(arg)
                 rec.count("events_fed")
-                rec.seen("line_forms", "%s%s%s%s" % (arg["form"], "+error" if arg["addr"] == M.ERROR else "",
+                if arg["addr"] == M.ERROR:
+                    rec.count("error_lines_fed")
+                    if not arg.get("errkw", True):
+                        rec.count("error_lines_without_error_keyword")
+                        rec.count("error_lines_without_keyword_on_%s_name" % ("held" if trans[0] else "unknown"))
+                rec.seen("line_forms", "%s%s%s%s" % (arg["form"], ("+error" if arg.get("errkw", True) else "+error-without-keyword")
+                                                      if arg["addr"] == M.ERROR else "",
                                                       "+streamid" if arg.get("streamid") is not None else "",
                                                       "+tor-in-other-zone" if arg.get("tzoff") else ""))
                 rec.seen("transitions", "%s->%s %s" % (
